@@ -418,6 +418,8 @@ def machine_q_stream(ctx, worlds, runs):
     cases = []
     idx = []
     for i, (w, r) in enumerate(zip(worlds, runs)):
+        if ctx.tier == "quick" and i % 2 == 1:
+            continue            # quick tier: every other run (the thorough tier feeds them all)
         if r["status"] == "adapter-error" or not r["log"] or r["sim_time"] is None or not r["counters"] or len(r["log"]) > MAX_LOG:
             continue
         gworld, gevs, nm, unsup, dom = convert_q(r, w)
